@@ -100,6 +100,16 @@ func HBodyError() {
 		quote = strings.TrimSuffix(quote, "\r")
 	}
 	vAssert(je.Quote == quote, "c07-body-error-quote")
+	// the include trace: none for a body of the root file; for a body in the INCLUDEd file the error's
+	// own place and the INCLUDE of the root file (line 4) that was followed
+	trace := vTraceLines(je.Error())
+	if place == 1 {
+		vAssert(len(trace) == 2, "c07-body-error-include-trace-length")
+		vAssert(strings.HasPrefix(trace[0], "b.jst:"), "c07-body-error-include-trace-entry-0")
+		vAssert(trace[1] == "root.jst:4", "c07-body-error-include-trace-entry-1")
+	} else {
+		vAssert(len(trace) == 0, "c07-body-error-trace-without-include")
+	}
 	vReach("body-error-located")
 	vObserve("err", int(je.Index), int(je.Line), int(je.Column))
 }
